@@ -9,7 +9,8 @@
    [nstep ... st i = None] for all i = nothing can move any more (maximal execution). *)
 From Coq Require Import List NArith ZArith Lia.
 From SF Require Import Base.Str Net.Model Net.Util Net.Proofs.
-From SF Require Gather.Model Net.Contracts Net.MixedModel Net.MixedProofs Net.MixedInst Net.MixedInstProofs Net.MixedInstProofs2.
+From SF Require Gather.Model Net.Contracts Net.MixedModel Net.MixedProofs Net.MixedInst Net.MixedInstProofs Net.MixedInstProofs2 Net.MixedProofs3 Net.MixedComb Net.MixedCombProofs.
+From SF Require Comb.Model.
 Import ListNotations.
 Local Open Scope string_scope. Local Open Scope list_scope.
 
@@ -86,7 +87,8 @@ Proof. exact Net.Contracts.gather_terminates. Qed.
      - the execution took exactly as many transitions as arrivals were consumed.
    _partial: unlike C04_net_terminates this gives no schedule-independent bound n: merge-style steps do not
    commute with themselves, so the diamond argument does not apply; finiteness is "each port is read at most up
-   to its termination token", the a-priori bound on the length of those histories is not proved. *)
+   to its termination token" plus C04_mixed_net_can_complete (every execution can be completed); a uniform
+   a-priori bound on the length of executions is not proved. *)
 Theorem C04_mixed_net_partial :
   forall (T spec : Type) (s_ins : spec -> list src) (s_nout : spec -> nat)
          (outs : spec -> Net.MixedModel.log T -> list (list (Net.MixedModel.mtok T)))
@@ -116,6 +118,33 @@ Theorem C04_contract_scatter_xf_gather :
   Net.MixedModel.log_contract Net.MixedInst.gtok Net.MixedInst.mspec Net.MixedInst.ms_ins Net.MixedInst.ms_nout
     Net.MixedInst.ms_outs Net.MixedInst.ms_done Net.MixedInst.ms_accept.
 Proof. exact Net.MixedInstProofs.ms_contract. Qed.
+
+(* Termination is not only "no deadlock": from ANY reachable state of a well-formed network of log machines there is
+   a continuation (constructed: steps in topological order, each fed until it is done; measure = unread tokens on
+   its inputs) that ends with every step terminated and nothing left to do. *)
+Theorem C04_mixed_net_can_complete :
+  forall (T spec : Type) (s_ins : spec -> list src) (s_nout : spec -> nat)
+         (outs : spec -> Net.MixedModel.log T -> list (list (Net.MixedModel.mtok T)))
+         (done : spec -> Net.MixedModel.log T -> bool) (accept : spec -> Net.MixedModel.log T -> nat -> bool)
+         (win : list (list (Net.MixedModel.mtok T))) (specs : list spec),
+    Net.MixedModel.log_contract T spec s_ins s_nout outs done accept ->
+    Net.MixedModel.mwf T spec s_ins s_nout win specs ->
+    forall ch st,
+      Net.MixedModel.mexec T spec s_ins outs done accept win specs (Net.MixedModel.minit T spec specs) ch = Some st ->
+      exists ch2 st', Net.MixedModel.mexec T spec s_ins outs done accept win specs st ch2 = Some st' /\
+        Net.MixedModel.all_done T spec done specs st' /\
+        (forall c, Net.MixedModel.mstep T spec s_ins outs done accept win specs st' c = None).
+Proof. exact Net.MixedProofs3.can_complete. Qed.
+
+(* CombinatorStep with ANY combinator tree of the C02 model (dot product, cartesian product, nested ones), read off
+   Comb.Model.run, honours the log contract: networks of combinators are covered by C04_mixed_net_partial and
+   C04_mixed_net_can_complete with no contract hypothesis.  (Token type: Comb.Model's (id, tag) pairs; the
+   Scatter/Transformer/Gather machines use Gather.Model's tokens, so ONE network mixing combinators and gathers is
+   not expressible yet: the two models' token types would have to be unified.) *)
+Theorem C04_contract_combinator :
+  Net.MixedModel.log_contract Net.MixedComb.ctok Net.MixedComb.cspec Net.MixedComb.cs_ins Net.MixedComb.cs_nout
+    Net.MixedComb.cs_outs Net.MixedComb.cs_done Net.MixedComb.cs_accept.
+Proof. exact Net.MixedCombProofs.cs_contract. Qed.
 
 (* Failure propagation at the level of the NETWORK, any interleaving: in every reachable state of a network of
    Scatter / one-input Transformer / Gather log machines, a terminated Transformer whose input history ends with a
@@ -198,6 +227,25 @@ Example C04_scatter_xf_gather_runs :
   ex [(2,0)] = None.
 Proof. vm_compute. repeat split; reflexivity. Qed.
 
+(* a dot product over two ports delivering the tags in different orders, two interleavings: the same bag of
+   combinations in a different order (merge-style steps are not confluent, only bag-determinate) *)
+Example C04_dot_product_runs :
+  let win : list (list Net.MixedComb.cmtok) :=
+    [[Net.MixedModel.D (1%N, "0.0"); Net.MixedModel.D (2%N, "0.1"); Net.MixedModel.E COMPLETED];
+     [Net.MixedModel.D (3%N, "0.1"); Net.MixedModel.D (4%N, "0.0"); Net.MixedModel.E COMPLETED]] in
+  let specs := [Net.MixedComb.mkC (Comb.Model.mkouter Comb.Model.KDot [Comb.Model.IPort "a"; Comb.Model.IPort "b"])
+                  ["a"; "b"] [WIn 0; WIn 1]] in
+  let ex := Net.MixedModel.mexec Net.MixedComb.ctok Net.MixedComb.cspec Net.MixedComb.cs_ins Net.MixedComb.cs_outs
+              Net.MixedComb.cs_done Net.MixedComb.cs_accept win specs
+              (Net.MixedModel.minit Net.MixedComb.ctok Net.MixedComb.cspec specs) in
+  let out st := Net.MixedModel.mcontent Net.MixedComb.ctok Net.MixedComb.cspec Net.MixedComb.cs_outs win specs st (SOut 0 0) in
+  option_map out (ex [(0,0);(0,1);(0,0);(0,1);(0,0);(0,1)]) =
+    Some [Net.MixedModel.D (2%N, "0.1"); Net.MixedModel.D (1%N, "0.0"); Net.MixedModel.E COMPLETED] /\
+  option_map out (ex [(0,1);(0,1);(0,1);(0,0);(0,0);(0,0)]) =
+    Some [Net.MixedModel.D (1%N, "0.0"); Net.MixedModel.D (2%N, "0.1"); Net.MixedModel.E COMPLETED] /\
+  ex [(0,1);(0,1);(0,1);(0,1)] = None.
+Proof. vm_compute. repeat split; reflexivity. Qed.
+
 (* ---- non-vacuity and headline instances *)
 Definition ex_win : list (list tok) :=
   [[Tok "0.0" 1; Tok "0.10" 2; Term COMPLETED]; [Tok "0.10" 7; Tok "0.0" 4; Term COMPLETED]]%Z.
@@ -239,6 +287,8 @@ Print Assumptions C04_contract_gather.
 Print Assumptions C04_mixed_net_partial.
 Print Assumptions C04_contract_scatter_xf_gather.
 Print Assumptions C04_failed_propagates_partial.
+Print Assumptions C04_mixed_net_can_complete.
+Print Assumptions C04_contract_combinator.
 Print Assumptions C04_status_bad_iff.
 Print Assumptions C04_failed_absorbing_round_partial.
 Print Assumptions C04_terminal_status.
